@@ -1,12 +1,16 @@
 #!/venv/bin/python
-"""refactor_test.py [PROP...] : run the checks on a behaviour-preserving refactoring (all locals renamed, re-emitted through ast.unparse).
+"""refactor_test.py [PROP...] : run the checks on a behaviour-preserving refactoring (--transform=rename|invert|noops; default rename: all locals renamed, re-emitted through ast.unparse).
 Every check must stay silent (exit 0)."""
 import json, os, shutil, subprocess, sys
 sys.path.insert(0, "/verif")
-from sa.refactor import refactored_copy
-tmp, n = refactored_copy("/repo")
-print(f"renamed {n} locals in scratch copy {tmp}")
-props = sys.argv[1:] or [c["property_id"] for c in json.load(open("/verif/MANIFEST.json"))["checks"]]
+from sa.refactor import refactored_copy, TRANSFORMS
+tname = "rename"
+args = sys.argv[1:]
+if args and args[0].startswith("--transform="):
+    tname = args.pop(0).split("=", 1)[1]
+tmp, n = refactored_copy("/repo", TRANSFORMS[tname])
+print(f"transform {tname}: {n} sites rewritten in scratch copy {tmp}")
+props = args or [c["property_id"] for c in json.load(open("/verif/MANIFEST.json"))["checks"]]
 bad = 0
 from concurrent.futures import ThreadPoolExecutor
 def run(p):
